@@ -61,6 +61,9 @@ pub use mmap::{Error, GuestMemoryMmap, GuestRegionMmap, MmapRegion};
 #[cfg(all(feature = "backend-mmap", feature = "xen", target_family = "unix"))]
 pub use mmap::{MmapRange, MmapXenFlags};
 
+#[cfg(vm_memory_verif)]
+pub mod verif_hooks;
+
 pub mod volatile_memory;
 pub use volatile_memory::{
     Error as VolatileMemoryError, Result as VolatileMemoryResult, VolatileArrayRef, VolatileMemory,
